@@ -59,6 +59,7 @@ Definition op_padded (x : list (list Z)) (fill : Z) (left : bool) := (ra_padded 
 Definition op_colsum (x : list (list Z)) := (ra_colsum (fr x), spec_colsum x).
 Definition op_colmean (x : list (list Z)) :=
   (ra_col_mean pair (fr x), map (fun j => (zsum (map (fun r => nth j r 0%Z) x), zlen (filter (fun r => Nat.ltb j (length r)) x))) (seq 0 (fold_left Nat.max (map (@length Z) x) O))).
+Definition op_rowmean (x : list (list Z)) := (ra_row_mean pair (fr x), map (fun r => (zsum r, zlen r)) x).
 Definition op_colcounts (x : list (list Z)) := (ra_col_counts (map zlen x), spec_col_counts x).
 Definition op_where (x : list (list Z)) (m : list (list bool)) (y : list (list Z)) := (rmap fr_rows (ra_where (fr_of_rows m) (fr x) (fr y)), spec_where m x y).
 Definition op_where_s (x : list (list Z)) (m : list (list bool)) (y : Z) := (rmap fr_rows (ra_where_s (fr_of_rows m) (fr x) y), spec_where_s m x y).
@@ -119,4 +120,4 @@ Definition dc_item_spec (o : list (list Z)) (i : Z) := np_item (dc_entries o) i.
 Definition dc_concat (os : list (list (list Z))) := obj_concat Z os.
 Definition dc_eq (o o' : list (list Z)) : bool := Nat.eqb (length o) (length o') && obj_eqb Z Z.eqb o o'.
 Definition dc_concat_spec (os : list (list (list Z))) := cols Z 0%Z (match os with [] => O | o :: _ => length o end) (flat_map dc_entries os).
-Extraction "oracle_core.ml" geo_model geo_spec build_model build_spec flat_model flat_spec tonumpy_model tonumpy_spec fromnumpy_model offsets_model offsets_spec mi_model mi_spec heap_run dc_new dc_new_spec dc_select dc_select_spec dc_item dc_item_spec dc_iter dc_astype dc_concat dc_concat_spec dc_eq from_ragged from_matrix rl2_obs rl2_select rl2_elem rl2_col rl2_sum rl2_max rl2_argmax rl2_ravel rl2_concat rl2_map rl2_map_col rl2_col_counts rl2_col_sum rl2_col_range rl2_intervals rl2_any_Z rl2_mean_Z rl2_rowagg varlen_concat op_ufunc op_reduce op_cumsum op_accumulate op_diff op_sort op_unique op_nonzero op_subset op_rslice op_rslice1d op_rslice2d op_padded op_colsum op_colcounts op_colmean op_argmax op_argmin rle_windows_Z rle_rlmask_Z op_fastidx op_where op_where_s op_like op_concat1 rle_encode rle_to_array rle_slice rle_slice_spec rle_get rle_bin rle_bin_spec rle_concat_Z rle_sum_Z rle_decode bit_unpack bit_get bit_getlist bit_window spec_windows Z.add Z.mul Z.opp Z.div_eucl Z.ltb hash_model hash_spec hash_eq hash_add setitem_model_Z setitem_spec_Z getitem_model_Z getitem_spec_Z chain_model_Z chain_spec_Z shape_codes sh_starts sh_lengths sh_size excl_prefix.
+Extraction "oracle_core.ml" geo_model geo_spec build_model build_spec flat_model flat_spec tonumpy_model tonumpy_spec fromnumpy_model offsets_model offsets_spec mi_model mi_spec heap_run dc_new dc_new_spec dc_select dc_select_spec dc_item dc_item_spec dc_iter dc_astype dc_concat dc_concat_spec dc_eq from_ragged from_matrix rl2_obs rl2_select rl2_elem rl2_col rl2_sum rl2_max rl2_argmax rl2_ravel rl2_concat rl2_map rl2_map_col rl2_col_counts rl2_col_sum rl2_col_range rl2_intervals rl2_any_Z rl2_mean_Z rl2_rowagg varlen_concat op_ufunc op_reduce op_cumsum op_accumulate op_diff op_sort op_unique op_nonzero op_subset op_rslice op_rslice1d op_rslice2d op_padded op_colsum op_colcounts op_colmean op_rowmean op_argmax op_argmin rle_windows_Z rle_rlmask_Z op_fastidx op_where op_where_s op_like op_concat1 rle_encode rle_to_array rle_slice rle_slice_spec rle_get rle_bin rle_bin_spec rle_concat_Z rle_sum_Z rle_decode bit_unpack bit_get bit_getlist bit_window spec_windows Z.add Z.mul Z.opp Z.div_eucl Z.ltb hash_model hash_spec hash_eq hash_add setitem_model_Z setitem_spec_Z getitem_model_Z getitem_spec_Z chain_model_Z chain_spec_Z shape_codes sh_starts sh_lengths sh_size excl_prefix.
